@@ -1218,9 +1218,24 @@ func (c *Ctx) execInstr(fr *Frame, b *ssa.BasicBlock, st *State, in ssa.Instruct
 	case *ssa.MapUpdate:
 		c.note("map update ignored (maps outside the heap model)")
 		return true
-	case *ssa.Range, *ssa.Next:
-		c.leave("range over map/string in " + fr.fn.Name())
-		fr.vals[x.(ssa.Value)] = c.havocVal(x.(ssa.Value).Type(), "range")
+	case *ssa.Range:
+		// iteration over a map or string: the iterator is opaque
+		c.note("range over a map/string: arbitrary number of iterations over arbitrary elements (over-approximation)")
+		fr.vals[x] = Val{T: x.Type(), S: "0"}
+		return true
+	case *ssa.Next:
+		// (ok, key, value): every component unconstrained
+		tup := x.Type().(*types.Tuple)
+		var es []Val
+		for i := 0; i < tup.Len(); i++ {
+			et := tup.At(i).Type()
+			if b, isB := et.(*types.Basic); isB && b.Kind() == types.Invalid {
+				es = append(es, Val{T: et})
+				continue
+			}
+			es = append(es, c.havocVal(et, "rangenext"))
+		}
+		fr.vals[x] = Val{T: x.Type(), Elems: es}
 		return true
 	case *ssa.Go, *ssa.Send, *ssa.Select, *ssa.MakeChan:
 		c.leave("goroutines/channels in " + fr.fn.Name())
